@@ -73,7 +73,7 @@ Example session1_run :
   | _ => (9%N, false, 9%nat, 9%nat, [])
   end =
   (ST_IDLE, true, 1%nat, 1%nat,
-   ["id name clemens " ++ text md_version; "id author " ++ text md_author; "uciok"; "readyok";
+   ["id name " ++ text md_name ++ " " ++ text md_version; "id author " ++ text md_author; "uciok"; "readyok";
     "info string no position is set";
     "info string calculated timeout 900";
     "info depth 1 score cp 50 time * nodes 33 nps * hashfull 0 pv b1c3";
